@@ -258,6 +258,8 @@ impl RocksDB {
 
     /// Write batch into transaction db.
     pub fn write(&self, batch: &RocksDBWriteBatch) -> Result<()> {
+        #[cfg(ckb_verif)]
+        let _verif = crate::verif::WriteGuard::begin("batch");
         self.inner.write(&batch.inner).map_err(internal_error)
     }
 
@@ -279,6 +281,8 @@ impl RocksDB {
     ///
     /// Default: false
     pub fn write_sync(&self, batch: &RocksDBWriteBatch) -> Result<()> {
+        #[cfg(ckb_verif)]
+        let _verif = crate::verif::WriteGuard::begin("batch_sync");
         let mut wo = WriteOptions::new();
         wo.set_sync(true);
         self.inner
